@@ -234,6 +234,13 @@ def run(prog, ctx):
         for x in (c.call_args()[0].walk() if c.call_args() else []):
             if x.k == "StringLiteral" and x.string_value() in ("true", "false"):
                 stored.add(x.string_value())
+        # strdup(local) where the local was given the literal before
+        a0 = c.call_args()[0].strip() if c.call_args() else None
+        if a0 is not None and a0.k == "DeclRefExpr" and a0.j.get("dk") == "local":
+            for lhs2, rhs2, st2 in sb.assignments():
+                nm2 = lhs2["name"] if isinstance(lhs2, dict) else render(lhs2)
+                if nm2 == a0.j["name"] and rhs2.string_value() in ("true", "false"):
+                    stored.add(rhs2.string_value())
     for lit, truth in (("true", True), ("false", False)):
         if lit not in stored:
             ctx.inconclusive("V5", "setter stores %r" % lit, sb.where, "canonical literal not found")
